@@ -4,6 +4,7 @@ import Pendulum.Gen.RsHelpers
 import Pendulum.Model.LocalTime
 import Pendulum.Gen.LocalTime
 import Pendulum.Gen.Helpers
+import Pendulum.Model.Getters
 namespace Pendulum.Drv.C15
 open Pendulum Pendulum.Drv
 
@@ -49,6 +50,27 @@ def handle (_zs : Zones) (ws : List String) : Option String :=
   | ["getters", y, m, d] => do
     let y ← y.toInt?; let m ← m.toInt?; let d ← d.toInt?
     some (okInts (getters y m d))
+  -- the small derived methods next to the getters (hand model Model/Getters.lean; Gen/Getters.lean is tied to it in Props/C15)
+  | ["gdcl", o, o1, o2] => do
+    let o ← o.toInt?; let o1 ← o1.toInt?; let o2 ← o2.toInt?
+    some (okInts [Getters.closestDate o o1 o2, Getters.farthestDate o o1 o2])
+  | ["gdavg", o, o1] => do
+    let o ← o.toInt?; let o1 ← o1.toInt?
+    some (okInts [Getters.averageDate o o1])
+  | "gxcl" :: far :: t :: cs => do
+    let t ← t.toInt?
+    let cs ← cs.mapM (·.toInt?)
+    match Getters.pickBy (fun c => Getters.absI (t - c)) (far == "1") cs with
+    | none => some "err ValueError"
+    | some r => some (okInts [r])
+  | ["gxavg", t, t2] => do
+    let t ← t.toInt?; let t2 ← t2.toInt?
+    some (okInts [Getters.averageInstant t t2])
+  | ["gwsa", _, v] => do
+    let v ← v.toInt?
+    match Getters.setWeekDay v with
+    | none => some "err ValueError"
+    | some w => some (okInts [w])
   | ["ord2ymd", n] => do
     let n ← n.toInt?
     let (y, m, d) := Cal.ord2ymd n
